@@ -281,7 +281,9 @@ func genModule(r *core.RNG, malformed bool) input {
 			}
 		}
 		if r.Chance(10) {
+			// std packages are type-checked from source on every load: fewer loads for these
 			in.Pkgs[i].Imports = append(in.Pkgs[i].Imports, core.Pick(r, []string{"errors", "unsafe", "sort", "unicode/utf8"}))
+			in.Procs, in.Loads = 2, 1
 		}
 	}
 	if malformed && r.Chance(30) {
@@ -354,9 +356,9 @@ func fixedCases() []input {
 			pkgIn{Dir: "", Name: "m", Files: []fileIn{
 				{Name: "a.go", Decls: []string{"type (\n\tA int\n\tB struct{ A }\n)", "const (\n\tK0 = iota\n\tK1\n)"}},
 				{Name: "b.go", Decls: []string{"func (A) M() {}", "func (b *B) M() {}", "func M() {\n\tvar K0 string\n\t_ = K0\n}"}}}}),
-		one("a std import: packages outside the module are part of the universe", []string{"."},
+		{Note: "a std import: packages outside the module are part of the universe", Roots: []string{"."}, Procs: 2, Loads: 1, Pkgs: []pkgIn{
 			pk("", "m", []string{"errors", modPath + "/a"}, "type T struct{}"),
-			pk("a", "a", []string{"unicode/utf8"}, "const A = 1")),
+			pk("a", "a", []string{"unicode/utf8"}, "const A = 1")}},
 		one("//line directive naming a file in the same directory", nil,
 			pk("", "m", nil, "type T struct{}", "//line renamed.go:10\nfunc Renamed() {}")),
 		one("//line directive naming a file in a foreign directory (known finding)", nil,
@@ -379,15 +381,16 @@ func (prop) Generate(r *core.RNG, tier string) []json.RawMessage {
 	}
 	for i := 0; i < n; i++ {
 		in := genModule(r.Fork(), r.Chance(10))
-		if tier == "thorough" {
+		if tier == "thorough" && in.Loads > 1 {
 			in.Procs = 4
 		}
 		add(in)
 	}
 	if tier == "thorough" {
-		// one universe with vendored std packages (import path != PkgPath inside std): net
-		add(input{Pkgs: []pkgIn{{Dir: "", Name: "m", Imports: []string{"net"}, Files: []fileIn{{Name: "a.go", Decls: []string{"type T struct{}"}}}}},
-			Roots: []string{"."}, Procs: 1, Loads: 1, Note: "std packages importing vendored packages (net -> vendor/golang.org/x/net/dns/dnsmessage)"})
+		// one universe in which a vendored std package (import path != PkgPath) is imported by two packages:
+		// crypto/ecdsa and vendor/golang.org/x/crypto/cryptobyte both import golang.org/x/crypto/cryptobyte/asn1
+		add(input{Pkgs: []pkgIn{{Dir: "", Name: "m", Imports: []string{"crypto/ecdsa"}, Files: []fileIn{{Name: "a.go", Decls: []string{"type T struct{}"}}}}},
+			Roots: []string{"."}, Procs: 4, Loads: 1, Note: "a vendored std package imported by two packages (crypto/ecdsa, vendor/golang.org/x/crypto/cryptobyte -> cryptobyte/asn1)"})
 	}
 	return out
 }
